@@ -31,4 +31,6 @@ def obligations(tier, ctx):
             obs.append(Ob(name=f"handler_{op}_n{n}", params=params2, pre=pre, call=f"H.handler_step({op!r}, {n}, {cl}, {ll}, now, d1, t)",
                           backend="P", timeout=120, family="protocol handler step"))
     obs.append(Ob(name="unique_ids", params=[("x", "int")], pre=["x == 0"], call="H.unique_ids(5)", backend="P", timeout=60, family="id generation"))
+    from symcheck.runner import mirror
+    obs += mirror(obs, r"^handler_(initialize|initialize_sid|request|request_unknown|notification_unknown)_n1$", "F", limit=(5 if tier == "quick" else None))
     return obs
